@@ -1,9 +1,9 @@
 SPECIFICATION Spec
 CONSTANTS
-  Universe = "GQ"
+  Universe = "CALL"
   Part = 0
-  Parts = 1
+  Parts = 2
   Known = {}
   Tags <- TagsFromFile
-INVARIANT DemoAsIs
+INVARIANT RoundTrip
 CHECK_DEADLOCK FALSE
